@@ -327,6 +327,23 @@ def _str_rule(ctx, tb: ClassInfo):
             ok = any(not p for _t, p in facts)
             run.add('C17.str', m.module.name, m.qualname, r, ok,
                     "'' only for a block without lines" if ok else "returns '' unconditionally", node=r)
+            if ok:
+                # "every header and content line": the emptiness test must cover the header lines as well as the
+                # content lines (a block that only has a header still renders its header)
+                tested = ''
+                for c, p in abs_.facts_at(r):
+                    if p:
+                        continue
+                    for nm in ast.walk(c):
+                        if isinstance(nm, (ast.Name, ast.Attribute)):
+                            tested += ' ' + ast.unparse(resolve_local(ctx, m, nm))
+                covers_header = 'self._header' in tested
+                covers_lines = 'self._lines' in tested or 'self.lines' in tested
+                run.add('C17.str', m.module.name, m.qualname, "'' guard", covers_header and covers_lines,
+                        "'' only when header and content are both empty" if covers_header and covers_lines else
+                        f"'' is returned when {'the content' if covers_lines else 'the header' if covers_header else 'something else'} "
+                        f"is empty, whatever the {'header' if covers_lines else 'content'} holds: those lines are missing from the "
+                        f"string form", node=r)
             continue
         sh = join_shape(ctx, m, r.value)
         if sh is None:
